@@ -181,6 +181,7 @@ fn prop_prefix(prop: &str) -> &'static str {
         "C13" => "stack",
         "C07" => "prune",
         "C10" => "growth",
+        "C19" => "exposure",
         "C16" => "names",
         "C20" => "resources",
         "C09" => "queue",
